@@ -143,9 +143,9 @@ class OrdinalFormat(Format):
         """
         if y.isinf:
             step = -1 if y.s else 1
-            return self.from_ordinal(self.to_ordinal(x) + step, infval=allow_inf)
+            return self.from_ordinal(self.to_ordinal(x, infval=allow_inf) + step, infval=allow_inf)
         else:
-            xord = self.to_ordinal(x)
+            xord = self.to_ordinal(x, infval=allow_inf)
             yord = self.to_ordinal(y)
             step = 1 if xord < yord else -1
             return self.from_ordinal(xord + step, infval=allow_inf)
@@ -156,9 +156,9 @@ class OrdinalFormat(Format):
         """
         if y.isinf:
             step = 1 if y.s else -1
-            return self.from_ordinal(self.to_ordinal(x) + step, infval=allow_inf)
+            return self.from_ordinal(self.to_ordinal(x, infval=allow_inf) + step, infval=allow_inf)
         else:
-            xord = self.to_ordinal(x)
+            xord = self.to_ordinal(x, infval=allow_inf)
             yord = self.to_ordinal(y)
             step = -1 if xord < yord else 1
             return self.from_ordinal(xord + step, infval=allow_inf)
